@@ -727,6 +727,14 @@ func ParseSpecFile(path, pkg string) (*SpecFile, error) {
 			}
 			pd.Body = e
 			sf.Pures = append(sf.Pures, pd)
+		case "atomic_only":
+			// atomic_only Type.field : the field is only ever accessed through sync/atomic
+			parts := strings.Fields(rest)
+			if len(parts) != 1 || !strings.Contains(parts[0], ".") {
+				return nil, fail(ln, fmt.Errorf("expected: atomic_only Type.field"))
+			}
+			i := strings.LastIndex(parts[0], ".")
+			sf.Guarded = append(sf.Guarded, GuardDecl{Type: parts[0][:i], Field: parts[0][i+1:], Mutex: "<atomic>"})
 		case "guarded_by":
 			// guarded_by Type.field mutexfield
 			parts := strings.Fields(rest)
